@@ -817,7 +817,7 @@ static int engine_replay(const char *path, bool quiet)
     g_trace = true;
     g_replay_mode = quiet ? 2 : 1;
     run_case(c.data(), c.size());
-    if (quiet && g_alloc_ordinal > 0) {
+    if (quiet && g_alloc_ordinal > 0 && getenv("VERIF_ALL_PERSONALITIES")) {
         // regression seeds (quiet replays): a case that makes the library allocate is run under every allocator
         // personality, not only the one its hash selects (a seed must keep failing whatever fresh memory contains)
         for (int m = 0; m < 5; m++) { g_force_alloc_mode = m; run_case(c.data(), c.size()); }
